@@ -1,18 +1,30 @@
 (* C11/Run.v -- entry point of the correspondence check.
-   Observation = the plain text of every line produced by iterating the result
-   of PrettyPrinter(fmt_json=...)(obj, no_color=True) (the whole text is the
-   "\n"-join of these lines on both sides: checked on the implementation side by
-   the harness, proved for the model in Lemmas.lines_lossless).
+   Observation = the text of every line of the no-colour rendering of a value,
+   obtained from the implementation in several ways ("views": lines converted
+   while iterating, lines collected first and converted afterwards, a second
+   iteration of the same result, results of one printer consumed interleaved, a
+   result consumed after the printer rendered other things, a fresh printer ...).
+   The model is a pure function of (mode, value): EVERY view must equal
+   gen_lines m v (the whole text is the "\n"-join of these lines: checked on the
+   implementation side by the harness, proved for the model in
+   Lemmas.lines_lossless).  The harness sends each distinct view once (views
+   equal to the first one are dropped on the Python side, so "all views equal
+   the model's lines" is unchanged).
+   wviews = views of the rendering of  [v, {"k": v}]  built from the SAME object v
+   (a value in which one object occurs twice, at two nesting offsets; its lines
+   were produced interleaved with those of v); the model has no notion of object
+   identity, so it must print as the tree  VList [v; VDict [(KStr "k", v)]].
    The implementation's lines are passed in with the case and compared here, so
-   that the printed result stays small: (1) = identical, (0 i line) = the first
-   differing line index and the first 160 characters of the model's line there
-   (() if the model has none). *)
+   that the printed result stays small: (1) = all identical, (0 w k i line) = in
+   view k (of v if w = 0, of [v, {"k": v}] if w = 1) the first differing line
+   index and the first 160 characters of the model's line there (() if the model
+   has none). *)
 From Coq Require Import ZArith List Bool.
 From AK Require Export Common.Sx Common.Err C11.Model.
 Import ListNotations.
 
 Inductive case :=
-| PP (m : mode) (v : value) (impl_lines : list (list Z)).
+| PP (m : mode) (v : value) (views : list (list (list Z))) (wviews : list (list (list Z))).
 
 Fixpoint str_eqb (a b : list Z) : bool :=
   match a, b with
@@ -29,11 +41,39 @@ Fixpoint first_diff (model impl : list (list Z)) (i : Z) : option (Z * option (l
   | [], _ :: _ => Some (i, None)
   end.
 
+(* first view that differs from the model's lines *)
+Fixpoint first_bad (model : list (list Z)) (views : list (list (list Z))) (k : Z)
+  : option (Z * Z * option (list Z)) :=
+  match views with
+  | [] => None
+  | w :: views' =>
+      match first_diff model w 0%Z with
+      | None => first_bad model views' (k + 1)%Z
+      | Some (i, l) => Some (k, i, l)
+      end
+  end.
+
+(* the value [v, {"k": v}] as the model sees it *)
+Definition twice (v : value) : value := VList [v; VDict [(KStr [107%Z], v)]].
+
+Definition report (w : Z) (r : Z * Z * option (list Z)) : sx :=
+  match r with
+  | (k, i, l) => SL [SZ 0; SZ w; SZ k; SZ i; sx_option sx_str (option_map (firstn 160) l)]
+  end.
+
 Definition run (c : case) : sx :=
   match c with
-  | PP m v impl =>
-      match first_diff (gen_lines m v) impl 0%Z with
-      | None => SL [SZ 1]
-      | Some (i, l) => SL [SZ 0; SZ i; sx_option sx_str (option_map (firstn 160) l)]
+  | PP m v views wviews =>
+      match first_bad (gen_lines m v) views 0%Z with
+      | Some r => report 0%Z r
+      | None =>
+          match wviews with
+          | [] => SL [SZ 1]
+          | _ :: _ =>
+              match first_bad (gen_lines m (twice v)) wviews 0%Z with
+              | Some r => report 1%Z r
+              | None => SL [SZ 1]
+              end
+          end
       end
   end.
